@@ -40,6 +40,15 @@ def gen_world(rng, max_files=3, allow_include=True, nprobes=(3, 10), plain_prefi
             nm = "%s%s%d" % (rng.choice(["L", "lab", "T", "q.x"]), f.name[0] + f.name[1:].split(".")[0][-1], len(labels))
             labels.append((nm, f))
             f.items.append(("label", nm))
+    # equates: a name for an address plus a number, defined anywhere (before or after the label, in any file)
+    aliases = []
+    for _ in range(rng.choice([0, 1, 2, 3])):
+        tgt, tf = rng.choice(labels)
+        f = rng.choice(allf)
+        nm = "EQ%d%s" % (len(aliases), rng.choice(["", "x", ".a"]))
+        k = rng.choice([0, 2, 4, -2, 10])
+        aliases.append((nm, f, tgt, k))
+        f.items.append(("alias", nm, tgt, k))
     # pads
     for f in allf:
         for _ in range(rng.randint(1, 5)):
@@ -100,9 +109,15 @@ def gen_world(rng, max_files=3, allow_include=True, nprobes=(3, 10), plain_prefi
         a = walk(f, a)
     if a >= 65536 - 64:
         return None
+    for nm, f, tgt, k in aliases:
+        addr[nm] = addr[tgt] + k
+    labels = labels + [(nm, f) for nm, f, _t, _k in aliases]
     # which labels are used from another file -> must be exported
     exported = set()
     file_of = dict(labels)
+    for nm, f, tgt, k in aliases:
+        if file_of[tgt] is not f:
+            exported.add(tgt)
     probes = []
     for f, i, pa, reps in probe_slots:
         tmpl = rng.choice(TEMPLATES)
@@ -132,12 +147,16 @@ def gen_world(rng, max_files=3, allow_include=True, nprobes=(3, 10), plain_prefi
     for nm, _ in labels:
         if rng.random() < 0.15:
             exported.add(nm)
+    alias_names = {a[0] for a in aliases}
     texts = []
     for f in allf:
         lines = []
         for it in f.items:
             if it[0] == "label":
                 lines.append("%s%s" % (it[1], "::" if it[1] in exported else ":"))
+            elif it[0] == "alias":
+                e = it[2] if it[3] == 0 else "%s %s %o" % (it[2], "+" if it[3] > 0 else "-", abs(it[3]))
+                lines.append("%s %s %s" % (it[1], "==" if it[1] in exported else "=", e))
             elif it[0] == "pad":
                 lines.append(it[1])
             elif it[0] == "include":
@@ -154,7 +173,7 @@ PROBE_SIZE = 6       # every probe is padded with nops to six bytes
 
 TEMPLATES = [
     ("branch",), ("branch",), ("jmp",), ("jsr",), ("movrel",), ("movto",), ("tstdef",), ("imm",), ("abs",), ("cmp2",), ("inc",),
-    ("word",), ("worddiff",), ("wordplus",), ("movrelplus",),
+    ("word",), ("worddiff",), ("wordplus",), ("movrelplus",), ("idx",), ("idxdef",), ("idxdefneg",),
 ]
 
 
@@ -164,7 +183,7 @@ def _make_probe(rng, tmpl, pa, l1, l2, addr):
 
     def rel(xa, t):
         return (t - xa - 2) & 0xFFFF
-    p = {"addr": pa, "rel": [], "branch": None, "words": None, "decode": None, "uses": [l1]}
+    p = {"addr": pa, "rel": [], "branch": None, "words": None, "decode": None, "uses": [l1], "abs_words": []}
     r = rng.randrange(6)
     if k == "branch":
         mn = rng.choice(BRANCHES)
@@ -203,9 +222,26 @@ def _make_probe(rng, tmpl, pa, l1, l2, addr):
     elif k == "imm":
         p["src"], size = "mov #%s, r%d" % (l1, r), 4
         p["decode"] = "mov 2 imm:%d reg:%d" % (t1 & 0xFFFF, r)
+        p["abs_words"] = [1]
     elif k == "abs":
         p["src"], size = "mov @#%s, r%d" % (l1, r), 4
         p["decode"] = "mov 2 abs:%d reg:%d" % (t1 & 0xFFFF, r)
+        p["abs_words"] = [1]
+    elif k in ("idx", "idxdef", "idxdefneg"):
+        rn = rng.randrange(6)
+        if k == "idx":
+            p["src"], mode, val = "mov %s(r%d), r%d" % (l1, rn, r), 6, t1
+        elif k == "idxdef":
+            p["src"], mode, val = "mov @%s(r%d), r%d" % (l1, rn, r), 7, t1
+        else:
+            p["src"], mode, val = "clr @-%s(r%d)" % (l1, rn), 7, -t1
+        size = 4
+        if k == "idxdefneg":
+            p["decode"] = "clr 2 idx:%d:%d:%d" % (mode, rn, val & 0xFFFF)
+            p["neg_words"] = [1]          # holds minus an address: moves by minus the difference of the bases
+        else:
+            p["decode"] = "mov 2 idx:%d:%d:%d reg:%d" % (mode, rn, val & 0xFFFF, r)
+            p["abs_words"] = [1]
     elif k == "cmp2":
         p["src"], size = "cmp %s, %s" % (l1, l2), 6
         p["decode"] = "cmp 3 rel:%d rel:%d" % (rel(pa + 2, t1), rel(pa + 4, t2))
@@ -214,10 +250,12 @@ def _make_probe(rng, tmpl, pa, l1, l2, addr):
     elif k == "word":
         p["src"], size = ".word %s" % l1, 2
         p["words"] = [t1 & 0xFFFF]
+        p["abs_words"] = [0]
     elif k == "wordplus":
         d = rng.choice([2, 10, -4])
         p["src"], size = ".word %s%s%o" % (l1, "+" if d > 0 else "-", abs(d)), 2
         p["words"] = [(t1 + d) & 0xFFFF]
+        p["abs_words"] = [0]
     else:
         p["src"], size = ".word %s-%s" % (l1, l2), 2
         p["words"] = [(t1 - t2) & 0xFFFF]
@@ -227,8 +265,10 @@ def _make_probe(rng, tmpl, pa, l1, l2, addr):
     return p
 
 
-def assemble_world(impl, w, want_symbols=False):
+def assemble_world(impl, w, want_symbols=False, base=None):
     """writes the files to a scratch directory and assembles the linked ones"""
+    if base is not None:
+        w = dict(w, base=base)
     d = impl.scratch_dir()
     try:
         for name, text in w["files"]:
@@ -341,3 +381,47 @@ def stream_layout(ctx, rng, n, impl, trace_invariant=None):
                               dict(inp, statement=p["src"], address=p["addr"]), expected=p["words"], observed=words_at(w, r, p))
         if trace_invariant is not None and r.trace:
             trace_invariant(ctx, r, dict(inp, main_paths=[]), {})
+
+
+def stream_relocate(ctx, rng, n, impl):
+    """C09: the same world at two bases: exactly the words that hold an absolute address (immediate and absolute label
+    operands, data words naming a label) move, each by the difference of the bases; opcode words, branch and relative
+    displacements, differences of labels and all data are identical"""
+    for _ in range(n):
+        w = gen_world(rng)
+        if not w:
+            continue
+        b1 = w["base"]
+        top = max(p["addr"] for p in w["probes"]) + 64 - b1
+        b2 = rng.choice([0o1000, 0o2000, 0o40000, 0o100000, rng.randrange(0, (65536 - top - 64) // 2) * 2])
+        if b2 == b1 or b2 + top >= 65536:
+            continue
+        r1 = assemble_world(impl, w)
+        r2 = assemble_world(impl, w, base=b2)
+        inp = {"files": w["files"], "linked": w["main"], "bases": [b1, b2]}
+        ctx.case(("world2", repr(w["files"]), b2), nontrivial=True)
+        ctx.count("relocated-worlds")
+        ctx.count("relocated-worlds-with-include", len(w["files"]) > w["main"])
+        if r1.outcome != "ok" or r2.outcome != "ok" or len(r1.code) != len(r2.code):
+            ctx.violation("a world assembles at one base and not (or to another length) at the other", inp, expected="two images of one length",
+                          observed=[r1.summary() if r1.outcome != "ok" else len(r1.code), r2.summary() if r2.outcome != "ok" else len(r2.code)])
+            continue
+        D = (b2 - b1) % 65536
+        must_move = set()
+        for p in w["probes"]:
+            for k in p["abs_words"]:
+                must_move.add(p["addr"] - b1 + 2 * k)
+        neg_move = set()
+        for p in w["probes"]:
+            for k in p.get("neg_words", []):
+                neg_move.add(p["addr"] - b1 + 2 * k)
+        ctx.count("words that must move", len(must_move))
+        for o in range(0, len(r1.code) - 1, 2):
+            a = r1.code[o] | (r1.code[o + 1] << 8)
+            b = r2.code[o] | (r2.code[o + 1] << 8)
+            want = (a + D) % 65536 if o in must_move else ((a - D) % 65536 if o in neg_move else a)
+            if b != want:
+                ctx.violation("relocation: " + ("a word holding an absolute address did not move by the difference of the bases" if o in must_move
+                                                else "a word that holds no absolute address changed with the base"),
+                              dict(inp, offset=o), expected=want, observed=b)
+                break
